@@ -438,11 +438,69 @@ def normalisation_clause(model, rep, funcs):
                det or ("" if has_len_guard else "no length-3 check"), node=g.node, fn=g, clause="4 normalisation", stmt="def _normalize_max_shifts")
 
 
+# --------------------------------------------------------------------------- clause 6: finite normalisation
+def _data_dependent(expr: ast.expr, params: set[str]) -> bool:
+    """Does the (expanded) expression depend on the voxel values of an image parameter (not only on its shape)?"""
+    shape_only = set()
+    for n in ast.walk(expr):
+        if isinstance(n, ast.Attribute) and n.attr in ("shape", "ndim", "size", "dtype") and isinstance(n.value, ast.Name):
+            shape_only.add(id(n.value))
+    return any(isinstance(n, ast.Name) and n.id in params and id(n) not in shape_only for n in ast.walk(expr))
+
+
+def finite_clause(model, rep, funcs):
+    """Normalised landscapes divide by a data-dependent norm; the division must be restricted to the entries where that norm is positive."""
+    from ..match import Matcher, src as msrc
+    for a, params in ((BZ + "ncc_landscape_no_pad", {"img0", "img1"}), (BF + "fsc_landscape", {"ft0", "ft1"})):
+        f = funcs.get(a)
+        if f is None:
+            continue
+        M = Matcher(f)
+        divs = []
+        parents = {}
+        for st in ast.walk(f.node):
+            for ch in ast.iter_child_nodes(st):
+                parents[id(ch)] = st
+        for n in ast.walk(f.node):
+            if isinstance(n, ast.BinOp) and isinstance(n.op, (ast.Div, ast.FloorDiv, ast.Mod)):
+                den = M.expr(n.right)
+                if _data_dependent(den, params):
+                    divs.append((n, den))
+        rep.instance("FIN", f.loc())
+        if not divs:
+            rep.ob("FIN", a, "the normalising division of the landscape was found", None, "no division by a data-dependent quantity", node=f.node, fn=f, clause="6 finite",
+                   stmt=f"def {f.name} normalisation")
+        for n, den in divs:
+            # required shape:  $out[$m] = <num>[$m] / <den>[$m]   with   $m = <q> > 0   and <den> = <q>, sqrt(<q>) or _safe_sqrt(<q>, ...)
+            st = parents.get(id(n))
+            ok, det = False, f"`{norm_src(n)[:90]}` divides by a quantity that is zero for constant or empty data: the landscape becomes NaN/inf"
+            if isinstance(st, ast.Assign) and st.value is n and len(st.targets) == 1 and isinstance(st.targets[0], ast.Subscript) and \
+                    isinstance(n.right, ast.Subscript) and isinstance(n.left, ast.Subscript):
+                m1, m2, m3 = norm_src(st.targets[0].slice), norm_src(n.right.slice), norm_src(n.left.slice)
+                if m1 == m2 == m3 and isinstance(st.targets[0].slice, ast.Name):
+                    mdef = M.expr(st.targets[0].slice)
+                    if isinstance(mdef, ast.Compare) and len(mdef.ops) == 1 and isinstance(mdef.ops[0], ast.Gt) and norm_src(mdef.comparators[0]) in ("0", "0.0"):
+                        canon = lambda e: ast.dump(M._exp.canon(M._exp.canon(e)))
+                        q = canon(mdef.left)
+                        base = M.expr(n.right.value)
+                        cands = [base]
+                        if isinstance(base, ast.Call) and base.args:
+                            cands.append(base.args[0])
+                        if any(canon(c) == q for c in cands):
+                            ok, det = True, ""
+                        else:
+                            det = f"the mask `{norm_src(mdef)}` does not test the denominator `{norm_src(base)[:60]}`"
+            rep.ob("FIN", a, "the landscape is normalised only where the norm is positive (entries with zero variance / zero power stay 0): finite for constant, "
+                   "zero or unrelated data", ok, det, node=n, fn=f, clause="6 finite")
+    rep.floor("FIN", 2, "(ZNCC/NCC and FSC landscapes)")
+
+
 def check(model, rep, tier):
     rep.decided += ["C05.1 refined shift stays within +-max_shifts for every integer peak / refined index (affine forms with rounding atoms, "
                     "Fourier-Motzkin); mesh encoder/decoder identity", "C05.2 ZNCC/NCC crop: pad_width_eff >= 1, symmetric, half-width <= max_shifts",
                     "C05.3 crop_by_max_shifts only on FFT-layout arrays", "C05.4 every nm->px conversion of max_shifts is preceded by _normalize_max_shifts"]
-    rep.not_decided += ["finiteness of scores for degenerate data", "absence of exceptions inside scipy/numpy", "non-emptiness of the refinement mesh"]
+    rep.decided += ["C05.6 the ZNCC/NCC and FSC landscapes divide only where the norm is positive (finite on constant / empty data)"]
+    rep.not_decided += ["finiteness inside the PCC upsampled DFT", "absence of exceptions inside scipy/numpy", "non-emptiness of the refinement mesh"]
     rep.assumptions += ["max_shifts >= 0 per axis; image sizes >= 1", "fftconvolve is summarised as valid-mode correlation (shape s1-s2+1, origin = left padding)",
                         "_upsampled_dft output has zero displacement at index dftshift (trusted summary)"]
     funcs = need_funcs(model, rep, ANCHORS)
@@ -451,3 +509,4 @@ def check(model, rep, tier):
     crop_clause(model, rep, funcs)
     layout_clause(model, rep, funcs)
     normalisation_clause(model, rep, funcs)
+    finite_clause(model, rep, funcs)
